@@ -42,7 +42,7 @@ func mapRangeJustifications(env *Env) map[string]frame.Justification {
 				parts := strings.Fields(v)
 				j := frame.Justification{Kind: parts[0]}
 				if len(parts) > 1 {
-					j.Arg = parts[1]
+					j.Arg = strings.Join(parts[1:], " ")
 				}
 				out[fmt.Sprintf("%s:%s#%s", fc.Rel, fc.Name, ord)] = j
 			}
@@ -59,9 +59,13 @@ func checkJustification(env *Env) func(fn *ssa.Function, j frame.Justification) 
 			// the lists of a map[string][]string table are pairwise disjoint, so at most one
 			// key can satisfy a membership test
 			rel := strings.TrimPrefix(fn.Pkg.Pkg.Path(), "github.com/roddhjav/apparmor.d/")
-			raw, ok := env.Raw[rel+"."+j.Arg]
+			tname, cover := j.Arg, ""
+			if f := strings.Fields(j.Arg); len(f) == 3 && f[1] == "covers" {
+				tname, cover = f[0], f[2]
+			}
+			raw, ok := env.Raw[rel+"."+tname]
 			if !ok {
-				return false, "table " + j.Arg + " was not dumped"
+				return false, "table " + tname + " was not dumped"
 			}
 			var m map[string][]string
 			if err := json.Unmarshal(raw, &m); err != nil {
@@ -81,7 +85,38 @@ func checkJustification(env *Env) func(fn *ssa.Function, j frame.Justification) 
 					owner[v] = k
 				}
 			}
-			return true, fmt.Sprintf("the %d lists of %s are pairwise disjoint (%d values)", len(m), j.Arg, len(owner))
+			detail := fmt.Sprintf("the %d lists of %s are pairwise disjoint (%d values)", len(m), tname, len(owner))
+			if cover != "" {
+				// every key of the covering table (the supported distributions) is in exactly one list
+				rawc, ok := env.Raw[rel+"."+cover]
+				if !ok {
+					return false, "table " + cover + " was not dumped"
+				}
+				var cm map[string]json.RawMessage
+				if err := json.Unmarshal(rawc, &cm); err != nil {
+					return false, err.Error()
+				}
+				var missing []string
+				for k := range cm {
+					if _, has := owner[k]; !has {
+						missing = append(missing, k)
+					}
+				}
+				sort.Strings(missing)
+				if len(missing) > 0 {
+					return false, fmt.Sprintf("%s: %v (keys of %s) are in no list of %s", detail, missing, cover, tname)
+				}
+				detail += fmt.Sprintf("; every key of %s (%d) is in exactly one list", cover, len(cm))
+			}
+			return true, detail
+		}
+		switch j.Kind {
+		case "logonly":
+			return true, "ASSUMED: the effects of this range only feed log or help output (stdout), which is not part of the build output"
+		case "keyedfiles":
+			return true, "ASSUMED: each iteration writes the file named after its key; distinct keys name distinct files"
+		case "unreachable":
+			return true, "ASSUMED: " + j.Arg
 		}
 		return false, "unknown justification " + j.Kind
 	}
@@ -189,4 +224,78 @@ func globalWrites(env *Env, reach map[*ssa.Function]bool, prop string) []frame.R
 		res.Detail = fmt.Sprintf("%d package variable(s) written on the call graph, all declared: %s", len(names), strings.Join(names, ", "))
 	}
 	return []frame.Result{res}
+}
+
+func init() {
+	Register(&Property{
+		ID:       "C02",
+		Packages: []string{"pkg/prebuild"},
+		Generate: func(env *Env) *Gen {
+			g := genStandard(env, "C02", true, nil)
+			roots := rootsOf(env, g, []string{
+				"pkg/prebuild/cli:Prebuild", "pkg/prebuild/cli:Configure", "cmd/prebuild:main", "cmd/prebuild:init",
+				"pkg/prebuild/cli:init", "pkg/prebuild:init", "pkg/prebuild/builder:init", "pkg/prebuild/directive:init", "pkg/prebuild/prepare:init",
+				"pkg/aa:init", "pkg/util:init", "pkg/paths:init", "pkg/logging:init",
+				"pkg/aa:join", "pkg/aa:cjoin", "pkg/aa:kindOf", "pkg/aa:setindent", "pkg/aa:indent", "pkg/aa:indentDbus",
+			})
+			reach := frame.Reachable(env.Prog, roots)
+			frame.StdoutIsOutput = false
+			g.Static = append(g.Static, frame.MapRanges(env.Prog, reach, mapRangeJustifications(env), checkJustification(env))...)
+			frame.StdoutIsOutput = true
+			// per-file processing: builder.Run and directive.Run; template helpers are called by
+			// reflection from renderTemplate
+			perFile := rootsOf(env, g, []string{"pkg/prebuild/builder:Run", "pkg/prebuild/directive:Run"})
+			extra := map[*ssa.Function][]*ssa.Function{}
+			if rt := env.Prog.Func("pkg/aa", "renderTemplate"); rt != nil {
+				extra[rt] = rootsOf(env, g, []string{"pkg/aa:join", "pkg/aa:cjoin", "pkg/aa:kindOf", "pkg/aa:setindent", "pkg/aa:indent", "pkg/aa:indentDbus"})
+			} else {
+				g.OutOfDate = append(g.OutOfDate, "pkg/aa:renderTemplate")
+			}
+			pfReach := frame.ReachableExcept(env.Prog, perFile, nil, extra)
+			g.Static = append(g.Static, globalWrites(env, pfReach, "C02")...)
+			g.Static = append(g.Static, guardedState(env, g, perFile, extra, "C02")...)
+			g.Extra["per_file_call_graph_functions"] = len(pfReach)
+			g.Extra["maprange_call_graph_functions"] = len(reach)
+			return g
+		},
+	})
+}
+
+// guardedState discharges the "opt storefirst=<pkg/var>" clauses: the functions carrying
+// the clause are the entries that reset the variable.
+func guardedState(env *Env, g *Gen, roots []*ssa.Function, extra map[*ssa.Function][]*ssa.Function, prop string) []frame.Result {
+	entries := map[string][]*ssa.Function{}
+	for _, fc := range funcsWithProp(env, prop) {
+		v, ok := fc.Opts["storefirst"]
+		if !ok {
+			continue
+		}
+		fn := env.Prog.Func(fc.Rel, fc.Name)
+		if fn == nil {
+			continue
+		}
+		for _, name := range strings.Split(v, ",") {
+			entries[strings.TrimSpace(name)] = append(entries[strings.TrimSpace(name)], fn)
+		}
+	}
+	var names []string
+	for k := range entries {
+		names = append(names, k)
+	}
+	sort.Strings(names)
+	var out []frame.Result
+	for _, k := range names {
+		i := strings.LastIndex(k, ".")
+		pkg := env.Prog.ByRel[k[:i]]
+		var gl *ssa.Global
+		if pkg != nil {
+			gl, _ = pkg.Members[k[i+1:]].(*ssa.Global)
+		}
+		if gl == nil {
+			out = append(out, frame.Result{Name: "per-file/no-carried-state:" + k, OK: false, Detail: "no such package variable"})
+			continue
+		}
+		out = append(out, frame.GuardedState(env.Prog, roots, gl, entries[k], extra))
+	}
+	return out
 }
